@@ -47,8 +47,8 @@ func (f *fakeBlockStore) LoadBlock(height int64) *tmtypes.Block {
 }
 func (f *fakeBlockStore) SaveBlock(block *tmtypes.Block, blockParts *tmtypes.PartSet, seenCommit *tmtypes.Commit) {
 }
-func (f *fakeBlockStore) PruneBlocks(height int64) (uint64, error)       { return 0, nil }
-func (f *fakeBlockStore) LoadBlockByHash(hash []byte) *tmtypes.Block     { return nil }
+func (f *fakeBlockStore) PruneBlocks(height int64) (uint64, error)            { return 0, nil }
+func (f *fakeBlockStore) LoadBlockByHash(hash []byte) *tmtypes.Block          { return nil }
 func (f *fakeBlockStore) LoadBlockPart(height int64, index int) *tmtypes.Part { return nil }
-func (f *fakeBlockStore) LoadBlockCommit(height int64) *tmtypes.Commit   { return nil }
-func (f *fakeBlockStore) LoadSeenCommit(height int64) *tmtypes.Commit    { return nil }
+func (f *fakeBlockStore) LoadBlockCommit(height int64) *tmtypes.Commit        { return nil }
+func (f *fakeBlockStore) LoadSeenCommit(height int64) *tmtypes.Commit         { return nil }
